@@ -2,6 +2,7 @@ package generator
 
 import (
 	"bufio"
+	"bytes"
 	"embed"
 	"encoding/json"
 	"fmt"
@@ -264,11 +265,30 @@ func (as *AppServer) SwaggerEndpoint(w http.ResponseWriter, r *http.Request) {
 }
 
 func (as *AppServer) ZipEndpoint(w http.ResponseWriter, r *http.Request) {
-	err := as.app.WriteZip(w)
-	w.Header().Add("Content-Type", "application/zip")
+	// A producer that can't be evaluated (say, a text artifact whose input
+	// isn't connected yet) panics. Like the producer endpoint, answer with an
+	// error instead of letting the panic out of the handler, and don't start
+	// sending a zip before it is known to be complete.
+	var archive bytes.Buffer
+	err := as.writeZipTo(&archive)
 	if err != nil {
-		panic(err)
+		log.Print(err)
+		w.Header().Set("Content-Type", "application/json")
+		w.WriteHeader(http.StatusInternalServerError)
+		writeJSONError(w, err)
+		return
 	}
+	w.Header().Add("Content-Type", "application/zip")
+	w.Write(archive.Bytes())
+}
+
+func (as *AppServer) writeZipTo(out io.Writer) (err error) {
+	defer func() {
+		if recErr := recover(); recErr != nil {
+			err = fmt.Errorf("panic recover: %v", recErr)
+		}
+	}()
+	return as.app.WriteZip(out)
 }
 
 func (as *AppServer) SceneEndpoint(w http.ResponseWriter, r *http.Request) {
